@@ -16,6 +16,7 @@ def run(ck, fb):
     r15k(ck, fb)
     r15l(ck, fb)
     r15m(ck, fb)
+    r15o(ck, fb)
     ck.borrow('rules.c12', {'R12q': 'R15n'}, 'a deregistration answered ok must reach the node that holds the instance, or the nodes return different instance sets until - and after - the next reconciliation')
     ck.borrow('rules.c14', {'R14g': 'R15j'}, 'a refused cluster message is a lost registry / view change: the nodes cannot converge on it')
 
@@ -555,3 +556,43 @@ def r15m(ck, fb, R='R15m'):
         for (s0, m0, v0, a0) in util.sends(b, r'NodeManageRequest$', 'QueryOwnerRange'):
             ck.require(any(t.op_tainted(o) for o in a0['ops']), R, 'handle_naming_route:QueryOwnerRange-carries-asking-node', s0.where(),
                        'the snapshot query does not tell the node manager which node asks', 'the id of the asking node is part of the request')
+
+
+def r15o(ck, fb, R='R15o'):
+    ck.rule(R, 'a batch that has to be sent twice still arrives before the batch that supersedes it: ClusteSyncSender retries a failed send once after a '
+               'pause, while the changes of the next tick are already on their way as another request (requests to one peer are independent futures, '
+               'the receiver applies them in arrival order). The pause (a literal Duration in the handler of SyncSenderRequest) is shorter than the '
+               'flush period of ClusterInstanceDelayNotifyActor (the literal `delay` it is built with): otherwise a registration whose first send '
+               'fails is delivered AFTER the removal queued half a second later, and the peer keeps the instance for ever (a copy of an HTTP '
+               'instance has no time-out there). A necessary condition only: a slow first failure can still be overtaken')
+    from rn.facts import op_const
+    SS = '<rnacos::naming::cluster::sync_sender::ClusteSyncSender as actix::Handler<rnacos::naming::cluster::model::SyncSenderRequest>>::handle'
+    h = ck.body(SS, R)
+    if not h:
+        return
+    pauses = []
+    for x in fb.tree(SS):
+        for s0 in x.calls(r'Duration::from_(millis|secs)$'):
+            c = op_const(s0.args[0]) if s0.args else None
+            if c is None or 'v' not in c:
+                continue
+            t = Taint(x, local_src=[s0.dst] if isinstance(s0.dst, int) else [])
+            if any(t.op_tainted(a) for s1 in x.calls(r'tokio::time::sleep$|time::sleep::sleep$|::sleep$') for a in s1.args):
+                pauses.append((int(c['v']) * (1000 if s0.callee.endswith('from_secs') else 1), s0))
+    ck.floor(R, 'literal pauses before a retry in the sync sender', len(pauses), 1)
+    nb = ck.body('rnacos::naming::cluster::instance_delay_notify::ClusterInstanceDelayNotifyActor::new', R)
+    period = None
+    if nb:
+        for (i, j, st) in nb.aggregates(r'ClusterInstanceDelayNotifyActor$'):
+            rv = st['rv']
+            if 'delay' in rv.get('fields', []):
+                c = op_const(rv['ops'][rv['fields'].index('delay')])
+                if c is not None and 'v' in c:
+                    period = int(c['v'])
+    if not ck.require(period is not None, R, 'delay-notify:period-literal', nb.where() if nb else '-', 'the flush period of the delay-notify actor is no longer a literal of its constructor: the rule cannot compare'):
+        return
+    for (ms, s0) in pauses:
+        ck.require(ms < period, R, 'sync_sender:retry-pause-below-flush-period', s0.where(),
+                   'a failed cluster sync request is retried after %d ms, the next batch for the same peer leaves after %d ms: the retried (older) batch '
+                   'arrives after the newer one and is applied last - register + deregister of an HTTP instance leaves a copy on that peer for ever'
+                   % (ms, period), '%d ms < %d ms' % (ms, period))
